@@ -1657,19 +1657,29 @@ int hawk_rtx_closeio (hawk_rtx_t* rtx, const hawk_ooch_t* name, const hawk_ooch_
 	return -1;
 }
 
-void hawk_rtx_flushallios (hawk_rtx_t* rtx)
+int hawk_rtx_flushallios (hawk_rtx_t* rtx)
 {
 	hawk_rio_arg_t* rio;
 	hawk_rio_impl_t handler;
+	int ret = 0;
 
+	/* all streams are flushed even if one of them fails. the return value
+	 * is -1 if a stream that has a write side could not be flushed */
 	for (rio = rtx->rio.chain; rio; rio = rio->next)
 	{
 		handler = rtx->rio.handler[rio->type & IO_MASK_CLEAR];
 		if (handler)
 		{
-			handler (rtx, HAWK_RIO_CMD_FLUSH, rio, HAWK_NULL, 0);
+			if (handler(rtx, HAWK_RIO_CMD_FLUSH, rio, HAWK_NULL, 0) <= -1 &&
+			    (rio->type & (IO_MASK_WRITE | IO_MASK_RDWR)))
+			{
+				flag_handler_failure (rtx);
+				ret = -1;
+			}
 		}
 	}
+
+	return ret;
 }
 
 void hawk_rtx_clearallios (hawk_rtx_t* rtx)
